@@ -21,7 +21,7 @@ def rat(x):
 
 
 # ---- values: (id, kind, text, extra)
-STR = ["", "a", "ab", "abc", "abcd", "b", "x", "AB", "Ab", "123", "5", "7.5", "abx", "cdx", "cd", "a-c", "hello", "true",
+STR = ["", "c)", "a(b", "a", "ab", "abc", "abcd", "b", "x", "AB", "Ab", "123", "5", "7.5", "abx", "cdx", "cd", "a-c", "hello", "true",
        "2024-01-15", "2024-02-29", "2023-02-29", "2024-02-30", "2024-13-01", "2024-00-10", "2024-04-31", "2024-1-5", "1900-02-29",
        "2000-02-29", "2024-01-15T10:30:00", "2024-01-15T10:30:00Z", "2024-01-15T10:30:00+05:30", "2024-01-15T25:00:00",
        "2024-02-30T10:00:00", "2024-01-15T10:61:00", "20240115", "2024-01-15 10:30:00", "2024-01-15T10:30"]
@@ -48,6 +48,9 @@ CONS = [("REQ", "REQ", "REQ", {}), ("OPT", "OPT", "OPT", {}),
         ("RE_lower", 'REGEX["^[a-z]+$"]', "REGEX", {"re": "lower"}), ("RE_d3", 'REGEX["^[0-9]{3}$"]', "REGEX", {"re": "d3"}),
         ("RE_alt", 'REGEX["^(ab|cd)x?$"]', "REGEX", {"re": "alt"}), ("RE_dot", 'REGEX["^a.c$"]', "REGEX", {"re": "dot"}),
         ("RE_digits", 'REGEX["^[0-9]+$"]', "REGEX", {"re": "digits"}),
+        # a lone bracket character inside a quoted argument: the members that follow in the chain are still members
+        ("RE_noparen", 'REGEX["^[^)]+$"]', "REGEX", {"re": "noparen"}), ("ENUM_par", 'ENUM[ab,"c)"]', "ENUM", {"vals": ["ab", "c)"]}),
+        ("CONST_par", 'CONST["a(b"]', "CONST", {"v": "s:a(b"}),
         ("RANGE_1_10", "RANGE[1,10]", "RANGE", {"lo": "1", "hi": "10"}), ("RANGE_h", "RANGE[0.5,2.5]", "RANGE", {"lo": "0.5", "hi": "2.5"}),
         ("RANGE_5", "RANGE[5,5]", "RANGE", {"lo": "5", "hi": "5"}),
         ("MIN_0", "MIN_LENGTH[0]", "MIN", {"n": 0}), ("MIN_2", "MIN_LENGTH[2]", "MIN", {"n": 2}),
